@@ -378,7 +378,9 @@ func (o Opt) valid() bool {
 }
 
 func (o Opt) String() string {
-	return fmt.Sprintf("asciiQuote=%d sfQuote=%d indent=%q binary=%d", asciiQuotes[o[0]], sfQuotes[o[1]], indents[o[2]], binStyles[o[3]])
+	qn := map[sml.QuoteStyle]string{sml.QuoteDouble: "double", sml.QuoteSingle: "single", sml.QuoteNone: "none"}
+	bn := map[sml.BinaryStyle]string{sml.BinaryHex: "hex", sml.BinaryLiteral: "literal"}
+	return fmt.Sprintf("strict asciiQuote=%s sfQuote=%s indent=%q binary=%s", qn[asciiQuotes[o[0]]], qn[sfQuotes[o[1]]], indents[o[2]], bn[binStyles[o[3]]])
 }
 
 func (o Opt) Encoder() *sml.Encoder {
